@@ -2,10 +2,14 @@ CONSTANTS
   DEV_MddAbsoluteDecline = FALSE
   Mode = 1
   MaxLen = 6
-  MaxLenB = 3
+  MaxLenB = 4
+  MaxLenFam = 5
+  TopCombos = 8
   Level = 2
   SimMinLen = 1
   SimMaxLen = 0
+  Part1 = 0
+  Part2 = 0
 INIT Init
 NEXT Next
 INVARIANT Inv_MddRange
